@@ -106,6 +106,9 @@ pub struct Program {
     pub threads: Vec<ThreadSpec>,
     pub consume: Vec<bool>,
     pub outlive: bool,
+    /// percentage of values whose destructor panics (fault injection)
+    #[serde(default)]
+    pub panicky: u8,
 }
 
 #[derive(Clone, Debug, PartialEq, Eq, Serialize, Deserialize)]
@@ -167,6 +170,8 @@ pub struct Profile {
     pub freeze: u32,
     pub burst: bool,
     pub budget: u32,
+    /// percent of cases in which a share of all values has a panicking destructor
+    pub panicky_cases: u32,
 }
 
 impl Profile {
@@ -211,6 +216,7 @@ impl Profile {
             freeze: 0,
             burst: false,
             budget: 20000,
+            panicky_cases: 0,
         }
     }
 }
@@ -276,8 +282,8 @@ fn pct(p: u32) -> BoxedStrategy<bool> {
 pub fn program_strategy(p: &Profile) -> BoxedStrategy<Program> {
     let p = p.clone();
     let p2 = p.clone();
-    ((p.threads.0..=p.threads.1), (p.conts.0..=p.conts.1), pct(p.nofast), pct(p.reuse), pct(p.outlive))
-        .prop_flat_map(move |(nt, nc, nofast, reuse, outlive)| {
+    ((p.threads.0..=p.threads.1), (p.conts.0..=p.conts.1), pct(p.nofast), pct(p.reuse), pct(p.outlive), (pct(p.panicky_cases), prop_oneof![Just(15u8), Just(30u8), Just(60u8)]))
+        .prop_flat_map(move |(nt, nc, nofast, reuse, outlive, (pk, pkpct))| {
             let p = p2.clone();
             let nt8 = nt as u8;
             let nc8 = nc as u8;
@@ -309,6 +315,7 @@ pub fn program_strategy(p: &Profile) -> BoxedStrategy<Program> {
                 threads,
                 consume,
                 outlive,
+                panicky: if pk { pkpct } else { 0 },
             })
         })
         .boxed()
